@@ -31,7 +31,8 @@ CFG = {
     "stages": ["go:gen", "lean:prep", "go:impl", "lean:judge"],
     "pregen": pregen,
     "theorems": [T + n for n in ["C20_equal_refl", "C20_equal_symm", "C20_nil_iff_equal", "C20_prj", "C20_registry",
-                                 "C20_registry_names", "C20_parse_agree_partial", "C20_wkt_parameter_map",
+                                 "C20_registry_names", "C20_parse_agree", "C20_parse_agree_tokens", "C20_lex_proj4", "C20_lex_wkt",
+                                 "C20_parse_agree_partial", "C20_wkt_parameter_map",
                                  "C20_wkt_false_origin_metres", "C20_noshift_datum_differs"]],
     "level": "proof",
     "trusted_base": [
